@@ -39,7 +39,11 @@ type dbHook struct {
 	perConn map[int]int
 	park    bool
 	Stmts   int
-	// classes seen (probe)
+	// latencyMs / latSeq: see BeforeStmt
+	latencyMs int
+	latSeq    uint64
+	// lastMeta: simulated instant of the latest information_schema look-up
+	lastMeta time.Duration
 }
 
 func newDBHook(sim *simkit.Sim) *dbHook {
@@ -79,10 +83,25 @@ func (h *dbHook) BeforeStmt(connID int, class string, sqlText string) *simdb.Fau
 	h.mu.Unlock()
 	if park {
 		h.sim.Park(fmt.Sprintf("db|%03d|%06d", connID+1, seq), "")
+	} else if h.latencyMs > 0 {
+		// concurrent engine (C20): statements take 1..latencyMs ms of simulated
+		// time on a 1 ms grid, so that goroutines of different transactions (and
+		// the client's background goroutines) become runnable at the same instants
+		h.mu.Lock()
+		h.latSeq = h.latSeq*6364136223846793005 + 1442695040888963407
+		d := time.Duration(1+int((h.latSeq>>33)%uint64(h.latencyMs))) * time.Millisecond
+		if class == "meta" {
+			d *= 10 // information_schema look-ups are slow
+		}
+		h.mu.Unlock()
+		time.Sleep(d)
 	}
 	h.mu.Lock()
 	defer h.mu.Unlock()
 	h.counts[class]++
+	if class == "meta" && strings.Contains(sqlText, "INFORMATION_SCHEMA") {
+		h.lastMeta = h.sim.Now()
+	}
 	n := h.counts[class]
 	for _, f := range h.faults {
 		if f.Class == class && f.Nth == n {
@@ -243,4 +262,11 @@ func (w *ATWorld) UndoRows(schema string) [][3]string {
 		out = append(out, [3]string{fmt.Sprint(r[2]), fmt.Sprint(r[1]), fmt.Sprint(r[5])})
 	}
 	return out
+}
+
+// LastMeta: simulated instant of the latest information_schema look-up.
+func (h *dbHook) LastMeta() time.Duration {
+	h.mu.Lock()
+	defer h.mu.Unlock()
+	return h.lastMeta
 }
